@@ -553,6 +553,14 @@ func (e *Eval) call(n *Node) Val {
 			}
 			except := map[string][]string{}
 			for _, a := range args {
+				if a.Op == "call" && a.Args[0].Op == "ident" && a.Args[0].Name == "all" && len(a.Args) == 2 && a.Args[1].Op == "sel" && a.Args[1].Args[0].Op == "ident" && e.pkg != nil {
+					if tn, ok := e.pkg.Members[a.Args[1].Args[0].Name].(*ssa.Type); ok {
+						if _, f := findField(tn.Type(), a.Args[1].Name, 0); f != nil {
+							except[x.fieldKey(tn.Type(), f)] = append(except[x.fieldKey(tn.Type(), f)], "*")
+							continue
+						}
+					}
+				}
 				v := e.eval(a)
 				if v.Addr == nil {
 					e.fail("frame(): %s is not a location", a)
@@ -582,11 +590,19 @@ func (e *Eval) call(n *Node) Val {
 				v = Val{T: "0", Sort: "Int"}
 			}
 			return Val{T: fmt.Sprintf("(store %s %s %s)", a.T, i.T, v.T), Sort: e.sortOf(a)}
+		case "pooltype":
+			// pooltype(p, "T"): the objects held by sync.Pool p have dynamic type T
+			v := e.eval(args[0])
+			if args[1].Op != "str" {
+				e.fail("pooltype(pool, \"type string\")")
+			}
+			x.declRaw("fun:pool_tag", "(declare-fun pool_tag (Int) Int)")
+			return Val{T: fmt.Sprintf("(= (pool_tag %s) %d)", v.T, x.tagOfName(args[1].Name)), Sort: "Bool"}
 		case "oncedone":
 			// oncedone(o): the sync.Once at address o has run
 			v := e.eval(args[0])
 			x.regComp("Once:done", "(Array Int Bool)")
-			return Val{T: fmt.Sprintf("(select %s %s)", x.get(e.st, "Once:done"), v.T), Sort: "Bool"}
+			return Val{T: fmt.Sprintf("(select %s %s)", x.get(e.st, "Once:done"), v.T), Sort: "Bool", Addr: &Addr{Kind: "cell", Key: "Once:done", Ref: v.T}}
 		case "firstload":
 			// firstload(loc): the value returned by this call's first atomic load of loc
 			v := e.eval(args[0])
@@ -955,8 +971,17 @@ func (x *Engine) frameTerm(st, old *State, except map[string][]string) string {
 		if fin == ini {
 			continue
 		}
+		whole := false
+		for _, ex := range except[k] {
+			if ex == "*" {
+				whole = true
+			}
+		}
+		if whole || strings.HasPrefix(k, "ghost:") {
+			continue // ghost state is not heap; wholly excepted components are free
+		}
 		switch {
-		case strings.HasPrefix(k, "G:"), strings.HasPrefix(k, "ghost:"):
+		case strings.HasPrefix(k, "G:"):
 			cs = append(cs, fmt.Sprintf("(= %s %s)", fin, ini))
 		default:
 			guard := fmt.Sprintf("(< r %s)", a0)
